@@ -638,7 +638,11 @@ impl Composite for Coerce {
             Self::NoOp(x) => Ok(Self::NoOp(x)),
             Self::IntoAssets(x) => Ok(Self::NoOp(x.into_assets()?)),
             Self::IntoDatum(x) => Ok(Self::NoOp(x.into_datum()?)),
-            Self::IntoScript(x) => todo!(),
+            // script coercion isn't supported yet, a client can still send it
+            Self::IntoScript(x) => Err(Error::InvalidUnaryOp(
+                "into_script".to_string(),
+                format!("{x:?}"),
+            )),
         }
     }
 }
